@@ -752,7 +752,7 @@ theorem basePrefix_eq (base : Int) :
       · have e2 : ((2 : Int) == base) = false := by simpa using fun h => h2 h.symm
         have e8 : ((8 : Int) == base) = false := by simpa using fun h => h8 h.symm
         have e16 : ((16 : Int) == base) = false := by simpa using fun h => h16 h.symm
-        simp [Gen.basePrefixes, List.find?_cons, e2, e8, e16, h2, h8, h16]
+        simp [Gen.basePrefixes, e2, e8, e16, h2, h8, h16]
 
 theorem toStr_chars (w : Nat) (hw : w = 32 ∨ w = 64) (v : Nat) (hv : v < 2^w) (base : Int) (sign : Bool) :
     (IntFmt.toStrBaseSign w (if w == 32 then tbl32 else tbl64) v
@@ -784,5 +784,62 @@ theorem item_of_int (o : Out) (w : Nat) (hw : w = 32 ∨ w = 64) (v : Nat) (hv :
 theorem item_of_text (o : Out) (d : Bytes) (hcur : o.gCur = []) :
     (resultText o d).gItems = o.gItems ++ [Spec.Message.quote (d.takeWhile (· ≠ 0))] := by
   simp [resultText, bump, writeData, hcur, Spec.Message.quote, escapeQuotes]
+
+theorem specDigits10_len {n : Nat} (h : n < 10^9) : (IntFmt.specDigits 10 n).length ≤ 9 := by
+  by_cases h0 : n = 0
+  · subst h0; rw [Lemmas.IntFmt.specDigits_zero]; decide
+  · obtain ⟨k, a, c⟩ := Lemmas.IntFmt.exists_pow_bracket (b := 10) (by omega) n (by omega)
+    rw [Lemmas.IntFmt.specDigits_eq (by omega) a c, Lemmas.IntFmt.pad_length]
+    have : (10 : Nat)^k < 10^9 := by omega
+    have := (Nat.pow_lt_pow_iff_right (a := 10) (by omega)).1 this
+    omega
+
+theorem blockHeader_chars {n : Nat} (h : n < 10^9) :
+    (IntFmt.toStrBaseSign 32 tbl32 (n % 2^32) Gen.blockHeaderLen Gen.blockHeaderBase false).1.chars =
+      IntFmt.specDigits 10 n := by
+  have hn : n % 2^32 = n := Nat.mod_eq_of_lt (by omega)
+  have hv : n < 2^32 := by omega
+  rw [hn, (Lemmas.IntFmt.toStr_spec 32 tbl32 (by decide) (by decide) n Gen.blockHeaderLen
+        Gen.blockHeaderBase false hv).1]
+  have hc : IntFmt.canon 32 n (Gen.blockHeaderBase : Nat) false = IntFmt.specDigits 10 n := by
+    simp [IntFmt.canon, IntFmt.effBase, Gen.blockHeaderBase]
+  rw [hc, List.take_of_length_le]
+  have := specDigits10_len h
+  have : Gen.blockHeaderLen = 10 := rfl
+  omega
+
+theorem item_of_block (o : Out) (d : Bytes) (hcur : o.gCur = []) (hlen : d.length < 10^9) :
+    (resultBlock o d).gItems = o.gItems ++ [Spec.Message.encodeBlock d] := by
+  unfold resultBlock resultBlockHeader
+  dsimp only
+  rw [blockHeader_chars hlen]
+  unfold resultBlockData
+  simp [writeDelimiter_eq, writeData, bump, hcur, Spec.Message.encodeBlock, Spec.Message.decimal,
+    charsToBytes, Nat.add_comm]
+
+/-! ### the ghost bookkeeping of `resultBlockData` does not disturb the real fields
+
+The C function increments output_count before the writeData call; the model writes first so that
+the ghost item is closed after its last bytes.  The real fields agree with the C order. -/
+
+/-- SCPI_ResultArbitraryBlockData in the literal C statement order -/
+def resultBlockDataC (o : Out) (d : Bytes) : Out :=
+  if o.arbRemaining < d.length then { o with pushed := o.pushed ++ [-310] }
+  else
+    let o := { o with arbRemaining := o.arbRemaining - d.length }
+    let o := if o.arbRemaining == 0 then bump o else o
+    writeData o d
+
+theorem resultBlockData_real (o : Out) (d : Bytes) :
+    (resultBlockData o d).outputCount = (resultBlockDataC o d).outputCount ∧
+    (resultBlockData o d).firstOutput = (resultBlockDataC o d).firstOutput ∧
+    (resultBlockData o d).arbRemaining = (resultBlockDataC o d).arbRemaining ∧
+    (resultBlockData o d).written = (resultBlockDataC o d).written ∧
+    (resultBlockData o d).flushes = (resultBlockDataC o d).flushes ∧
+    (resultBlockData o d).pushed = (resultBlockDataC o d).pushed := by
+  unfold resultBlockData resultBlockDataC
+  by_cases h1 : o.arbRemaining < d.length
+  · simp [h1]
+  · by_cases h2 : o.arbRemaining - d.length = 0 <;> simp [h1, h2, writeData, bump]
 
 end ScpiVerif.Lemmas.Framing
